@@ -57,7 +57,19 @@ let state (a : archive) (level : int) : string =
         (String.concat "," (List.map dec_of_n dests)) in
     if level >= 2 then
       (match BinFormat.serialize Checked a with
-       | Ok b -> s ^ " ser=" ^ show_b b
+       | Ok b ->
+         let rcs =
+           (match BinFormat.from_bytes a.a_endian b with
+            | Ok re ->
+              let orig k = List.exists (fun (k', _) -> n_cmp k k' = 0) a.a_ptrs && visible k in
+              let cells = List.filter (fun (k, v) -> n_le (BinNat.N.add k n4) (size re) && not (orig k)) re.a_ptrs
+                          |> List.sort (fun (x, _) (y, _) -> n_cmp x y) in
+              " rc=[" ^ String.concat "," (List.map (fun (k, _) ->
+                  match read_c_string re k with
+                  | Ok (Some x) -> dec_of_n k ^ ":" ^ show_b x
+                  | _ -> dec_of_n k ^ ":?") cells) ^ "]"
+            | _ -> " rc=err") in
+         s ^ rcs ^ " ser=" ^ show_b b
        | Err _ -> s ^ " ser=err"
        | Panic _ -> s ^ " ser=PANIC")
     else s
